@@ -6,6 +6,7 @@ subcommand (hidden ones included): positionals with arity, long/short names and 
 paths, strings), `value_delimiter`, `conflicts_with*`, `requires`, `global`, defaults.
 Anything it does not understand raises `GrammarError` (a broken tie, DESIGN.md 2.2).
 """
+import json
 import os
 import re
 
@@ -16,6 +17,17 @@ OUT = os.path.join(common.LEAN, "RModel", "Gen", "CliGrammar.lean")
 
 class GrammarError(Exception):
     pass
+
+
+# clap features that are extracted as data but that `RModel.Model.Cli` does not model (or that this translator
+# does not know at all).  They do not stop the translation: the grammar is still written, the real parser is
+# still compared with the model on every argv and the oracle still runs; `run()` reports them afterwards
+# (a weakened tie), `extract()["problems"]` lists them.
+PROBLEMS = []
+
+
+def problem(where, text):
+    PROBLEMS.append(f"{where}: {text}")
 
 
 # ---------------------------------------------------------------------------------------------------
@@ -275,7 +287,7 @@ def parse_arg(owner, attrs, fname, ftype, enums):
     """one field -> arg dict, or ('flatten', TypeName), or ('subcommand', TypeName)"""
     a = {"id": fname, "long": None, "aliases": [], "short": None, "action": None, "positional": False,
          "required": False, "delim": None, "vtype": ("str",), "default": None, "conflicts": [], "requires": [],
-         "global": False, "env": None}
+         "global": False, "env": None, "trailingVarArg": False, "allowHyphen": False, "last": False, "extra": {}}
     kv = []
     for an, inner in attrs:
         if an == "doc":
@@ -353,13 +365,19 @@ def parse_arg(owner, attrs, fname, ftype, enums):
                 default = v
             else:
                 raise GrammarError(f"{where} = {v!r}: only bool/integer literals supported")
+        elif k in ("trailing_var_arg", "allow_hyphen_values", "last"):
+            if v not in ("true", "false"):
+                raise GrammarError(f"{where} = {v!r}")
+            a[{"trailing_var_arg": "trailingVarArg", "allow_hyphen_values": "allowHyphen", "last": "last"}[k]] = v == "true"
         elif k == "num_args":
+            a["extra"][k] = v
             if v != "1":
-                raise GrammarError(f"{where} = {v!r}: only the default arity is modelled")
+                problem(where, f"num_args = {v}: only the default arity is modelled")
         else:
-            # value_parser, default_missing_value, require_equals, last, trailing_var_arg, allow_hyphen_values,
-            # overrides_with, exclusive, group, required_unless*, requires_if*, ... : not modelled
-            raise GrammarError(f"{where}: clap attribute not understood by the C20 grammar translator")
+            # value_parser, default_missing_value, require_equals, overrides_with, exclusive, group,
+            # required_unless*, requires_if*, allow_negative_numbers, ...: kept as data, not modelled
+            a["extra"][k] = v
+            problem(where, f"clap attribute `{k}{'' if v is None else ' = ' + v}` is not modelled")
     positional = a["long"] is None and a["short"] is None
     a["positional"] = positional
     if base == "bool":
@@ -398,6 +416,9 @@ def parse_arg(owner, attrs, fname, ftype, enums):
     return a
 
 
+_seen_struct_attrs = set()
+
+
 def expand_fields(owner, body, structs, enums, seen=()):
     """field list with `flatten` expanded in place -> (args, subcommand type or None)"""
     args, sub = [], None
@@ -412,6 +433,10 @@ def expand_fields(owner, body, structs, enums, seen=()):
                 sattrs, sbody = structs[r[1]]
                 if "Args" not in derives(sattrs):
                     raise GrammarError(f"{r[1]} is flattened but does not derive Args")
+                for an, inner in sattrs:
+                    if an not in ("derive", "doc") and (r[1], an) not in _seen_struct_attrs:
+                        _seen_struct_attrs.add((r[1], an))
+                        problem(r[1], f"struct attribute #[{an}({inner or ''})] is not modelled")
                 inner, s2 = expand_fields(r[1], sbody, structs, enums, seen + (r[1],))
                 if s2:
                     raise GrammarError(f"{r[1]}: subcommand inside a flattened struct")
@@ -441,11 +466,16 @@ def check_cmd(owner, args):
     pos = [a for a in args if a["positional"]]
     for i, a in enumerate(pos):
         if a["action"] == "append" and i != len(pos) - 1:
-            raise GrammarError(f"{owner}.{a['id']}: a Vec positional that is not last is not modelled")
+            problem(f"{owner}.{a['id']}", "a Vec positional that is not last is not modelled")
+        if (a["trailingVarArg"] or a["last"]) and i != len(pos) - 1:
+            problem(f"{owner}.{a['id']}", "trailing_var_arg / last on a positional that is not the last one is not modelled")
         if a["required"] and any(not b["required"] for b in pos[:i]):
             raise GrammarError(f"{owner}.{a['id']}: required positional after an optional one")
         if a["delim"]:
-            raise GrammarError(f"{owner}.{a['id']}: value_delimiter on a positional is not modelled")
+            problem(f"{owner}.{a['id']}", "value_delimiter on a positional is not modelled")
+    for a in args:
+        if (a["trailingVarArg"] or a["last"]) and not a["positional"]:
+            problem(f"{owner}.{a['id']}", "trailing_var_arg / last on a named argument is not modelled")
     for a in args:
         for ref in a["conflicts"] + a["requires"]:
             if ref not in ids:
@@ -453,6 +483,8 @@ def check_cmd(owner, args):
 
 
 def extract():
+    del PROBLEMS[:]
+    _seen_struct_attrs.clear()
     cli_dir = os.path.join(common.REPO, "renamify-cli", "src", "cli")
     args_src = strip_comments(open(os.path.join(cli_dir, "args.rs")).read())
     types_src = strip_comments(open(os.path.join(cli_dir, "types.rs")).read())
@@ -530,7 +562,8 @@ def extract():
     names = [n for c in cmds for n in [c["name"]] + c["aliases"]]
     if len(set(names)) != len(names) or "help" in names:
         raise GrammarError("duplicate or reserved subcommand names")
-    return {"top": top, "subs": cmds, "version": version, "subRequired": True, "enums": enums}
+    return {"top": top, "subs": cmds, "version": version, "subRequired": True, "enums": enums,
+            "problems": list(PROBLEMS)}
 
 
 # ---------------------------------------------------------------------------------------------------
@@ -584,6 +617,12 @@ def lean_arg(a):
         parts.append(f"requires := {lean_list(a['requires'], lean_bytes)}")
     if a["global"]:
         parts.append("global := true")
+    if a["trailingVarArg"]:
+        parts.append("trailingVarArg := true")
+    if a["allowHyphen"]:
+        parts.append("allowHyphen := true")
+    if a["last"]:
+        parts.append("last := true")
     return "{ " + ", ".join(parts) + " }"
 
 
@@ -609,13 +648,22 @@ def render(g):
                   | {a["env"] for c in g["subs"] for a in c["args"] if a["env"]})
     L.append("/-- environment variables clap consults (`env = ..`); the model and the harness run with them unset -/")
     L.append("def envVars : List String := " + lean_list(envs, lambda e: f'"{e}"'))
+    L.append("/-- clap features present in the sources that `RModel.Model.Cli` does not model (kept as data only) -/")
+    L.append("def unmodelled : List String := " + lean_list(g.get("problems", []), lambda e: json.dumps(e, ensure_ascii=True)))
     L.append("\nend Gen.CliGrammar\n")
     return "\n".join(L)
 
 
+def write(g):
+    return [(OUT, common.write_if_changed(OUT, render(g)))]
+
+
 def run():
     g = extract()
-    return [(OUT, common.write_if_changed(OUT, render(g)))]
+    res = write(g)
+    if g["problems"]:
+        raise GrammarError("grammar written, but the model does not cover: " + "; ".join(g["problems"]))
+    return res
 
 
 if __name__ == "__main__":
